@@ -52,6 +52,15 @@ Theorem C10_priority_range : forall e s v p, pending e s = Some (IVec v p) -> 0 
 Proof. exact pending_prio_range. Qed.
 Print Assumptions C10_priority_range.
 
+(* Boundary, all states (strict or not, any stack pointer): a taken interrupt replaces the
+   fetch — the step is the entry and nothing else — and instructions_run is unchanged whatever
+   the entry does (including its failure paths). *)
+Theorem C10_boundary : forall e s v p, takes_irq e s v p ->
+  step_inner e s = handle_interrupt e (256 + v) (Some p) (after_poll e s) /\
+  s_instrs (fst (step_inner e s)) = s_instrs s.
+Proof. exact boundary. Qed.
+Print Assumptions C10_boundary.
+
 (* Entry snapshot (non-strict machine, 16-bit PSR, the two stack slots below the I/O page; R6,
    saved SP, memory, frames arbitrary).  [entry_post (after_poll e s) s' v p] says: the old PSR
    is at SSP-1 and the old PC at SSP-2 ([entry_mem]), PC = mem'[x100+v], PSR = supervisor,
@@ -65,6 +74,21 @@ Theorem C10_entry : forall e s v p, takes_irq e s v p ->
   exists s', step_inner e s = (s', inl tt) /\ entry_post (after_poll e s) s' v p.
 Proof. exact step_entry. Qed.
 Print Assumptions C10_entry.
+
+(* the fields of [entry_post], spelled out with mget *)
+Theorem C10_entry_fields : forall s s' v p, entry_post s s' v p -> 0 <= s_psr s < 65536 -> 0 <= p < 8 -> regs8 (s_regs s) ->
+  let sp := w_data (entry_sp s) in
+  mget (s_mem s') (wrap16 (sp - 1)) = new_init (s_psr s) /\
+  mget (s_mem s') (wrap16 (sp - 2)) = new_init (s_pc s) /\
+  s_pc s' = w_data (mget (s_mem s') (256 + v)) /\
+  psr_privileged (s_psr s') = true /\ psr_priority (s_psr s') = p /\ psr_cc (s_psr s') = 2 /\
+  s_psr s' = Z.land (s_psr s) 30968 + 256 * p + 2 /\
+  w_data (rget (s_regs s') 6) = wrap16 (sp - 2) /\
+  (psr_privileged (s_psr s) = false -> s_saved_sp s' = rget (s_regs s) 6) /\
+  (psr_privileged (s_psr s) = true -> s_saved_sp s' = s_saved_sp s) /\
+  s_instrs s' = s_instrs s.
+Proof. exact entry_fields. Qed.
+Print Assumptions C10_entry_fields.
 
 (* RTI is the inverse of the entry: if the handler reaches an RTI with R6 back at its entry value,
    the saved SP untouched, the two stack slots intact, still privileged, then executing RTI
